@@ -76,7 +76,8 @@ def opCli : OpFn := fun view inp out => do
           prev := none
         else
           if prompt != hasReplace then
-            fails := fails ++ ["C10: the overwrite prompt is shown exactly when an existing certificate would be replaced"]
+            fails := fails ++ ["C10: the overwrite prompt is shown exactly when an existing certificate would be replaced",
+              s!"C11: `gopki sign {flags}` does not plan what the flags select (a replacement is {if hasReplace then "" else "not "}planned under strategy {strat}, the process {if prompt then "asked" else "did not ask"} before overwriting)"]
           if prompt then prompts := prompts + 1
           -- an existing certificate file that changed although the user did not answer `y`
           let replacedOne := prePems.any fun p => p.cert.isSome && (match postPems.find? (·.path == p.path) with
@@ -95,6 +96,10 @@ def opCli : OpFn := fun view inp out => do
             if !v.spec then fails := fails ++ [v.clause]
             for c in v.allClauses do
               if c != v.clause then fails := fails ++ [c]
+            -- the files rewritten are exactly the artifacts of the planned entities
+            let planned := (o.plan.filterMap fun pl => ((importState 0 files prePems preRanks keys (fun _ _ => 0)).1.find pl.alias).map fun e => artifactFileName e.configPath)
+            if o.updateErr == "" && !(o.writes.all planned.contains && planned.all o.writes.contains) then
+              fails := fails ++ [s!"C11: the artifacts `gopki sign {flags}` rewrites are not those of the entities the flags select"]
             if (exit == 0) != (o.updateErr == "") then
               fails := fails ++ ["C10: exit status does not reflect whether the update succeeded"]
             if prev == some flags && strat < 16 && (!v.planned.isEmpty || !o.writes.isEmpty) then
